@@ -900,6 +900,26 @@ func usedPlutusVersions(
 	if ls == nil {
 		return used, nil
 	}
+	// Only the scripts the transaction requires contribute their language, not
+	// every reference script that sits on a referenced or spent UTxO
+	needed, _, err := common.RequiredScriptHashes(tx, ls)
+	if err != nil {
+		return nil, err
+	}
+	// Script guards are required scripts too. The requirements of
+	// sub-transactions are not determined here, so with sub-transactions any
+	// reference script may be required
+	anyNeeded := false
+	if dijkstraTx, ok := tx.(*DijkstraTransaction); ok {
+		if guards := dijkstraTx.Body.TxGuards; guards != nil {
+			for _, guard := range guards.Credentials {
+				if guard.CredType == common.CredentialTypeScriptHash {
+					needed[common.ScriptHash(guard.Credential)] = struct{}{}
+				}
+			}
+		}
+		anyNeeded = len(dijkstraTx.Body.TxSubTransactions.Items()) > 0
+	}
 	for _, refInput := range tx.ReferenceInputs() {
 		utxo, err := ls.UtxoById(refInput)
 		if err != nil {
@@ -911,8 +931,12 @@ func usedPlutusVersions(
 		if utxo.Output == nil {
 			continue
 		}
-		if version, ok := common.PlutusScriptVersion(utxo.Output.ScriptRef()); ok {
-			used[version] = struct{}{}
+		if script := utxo.Output.ScriptRef(); script != nil {
+			if _, isNeeded := needed[script.Hash()]; isNeeded || anyNeeded {
+				if version, ok := common.PlutusScriptVersion(script); ok {
+					used[version] = struct{}{}
+				}
+			}
 		}
 	}
 	// Regular bad inputs are reported by BadInputsUtxo later in rule order.
@@ -922,8 +946,12 @@ func usedPlutusVersions(
 		if err != nil || utxo.Output == nil {
 			continue
 		}
-		if version, ok := common.PlutusScriptVersion(utxo.Output.ScriptRef()); ok {
-			used[version] = struct{}{}
+		if script := utxo.Output.ScriptRef(); script != nil {
+			if _, isNeeded := needed[script.Hash()]; isNeeded || anyNeeded {
+				if version, ok := common.PlutusScriptVersion(script); ok {
+					used[version] = struct{}{}
+				}
+			}
 		}
 	}
 	return used, nil
